@@ -463,20 +463,30 @@ func extractAccessTable() {
 	for _, r := range rows {
 		seenField[r.Field] = true
 	}
-	// keep the call rows whose callee touches tracked state directly, or calls (one level) something that does
+	// keep the call rows whose callee touches tracked state directly, or reaches (through at most two
+	// intermediate functions) something that does: enough to justify "helper of a helper" lock claims
 	direct := map[string]bool{}
 	for _, r := range rows {
 		direct[r.Fn] = true
 	}
-	level1 := map[string]bool{}
-	for _, c := range calls {
-		if direct[c.Callee] {
-			level1[strings.TrimSuffix(c.Caller, " (go)")] = true
+	reach := map[string]bool{}
+	for f := range direct {
+		reach[f] = true
+	}
+	for depth := 0; depth < 2; depth++ {
+		next := map[string]bool{}
+		for _, c := range calls {
+			if reach[c.Callee] {
+				next[strings.TrimSuffix(c.Caller, " (go)")] = true
+			}
+		}
+		for f := range next {
+			reach[f] = true
 		}
 	}
 	var keep []callRow
 	for _, c := range calls {
-		if direct[c.Callee] || level1[c.Callee] {
+		if reach[c.Callee] {
 			keep = append(keep, c)
 		}
 	}
